@@ -171,7 +171,7 @@ def run(ctx):
 
 MANIFEST = {
     "category": "other",
-    "technique": "MIR dominance / edge-guard / provenance rules on the ingest coroutine + exhaustive decision tables of the two backlink validators",
+    "technique": "MIR dominance / edge-guard / provenance rules on the ingest coroutine + exhaustive decision tables of the two backlink validators; no-head clause of the validator table",
     "text": "Static, all paths of ingest_operation: transaction bracket, *_tx reads, position and propagation of the log-integrity check, provenance of its arguments; plus the complete decision tables of validate_backlink and validate_prunable_backlink. Necessary structural conditions of the chain invariant; uniqueness enforced by SQLite and behaviour over histories are not decided.",
     "note": "Trusted: rustc MIR, driver, rule engine; the store traits' documented semantics (begin/commit/rollback).",
 }
